@@ -270,7 +270,7 @@ theorem applyPerm_perm {β : Type} (p : List Nat) (l : List β)
   have := hp.filterMap (fun i => l[i]?)
   rwa [filterMap_getElem?_range] at this
 
-theorem applyPerm_map {β γ : Type} (f : β → γ) (p : List Nat) (l : List β) :
+theorem applyPerm_map_m {β γ : Type} (f : β → γ) (p : List Nat) (l : List β) :
     applyPerm p (l.map f) = (applyPerm p l).map f := by
   simp only [applyPerm, List.map_filterMap, List.getElem?_map]
 
@@ -291,7 +291,7 @@ theorem sortPadHits_strict (hs : IsDescSort (fieldOps top) s) (l : List (PadHit 
     (hnd : (l.map (·.amplitude)).Nodup) :
     (sortPadHits s l).Pairwise (fun a b => b.amplitude < a.amplitude) := by
   have h1 := (hs (l.map (·.amplitude))).2
-  rw [applyPerm_map] at h1
+  rw [applyPerm_map_m] at h1
   have h2 : ((sortPadHits s l).map (·.amplitude)).Nodup :=
     ((sortPadHits_perm top s hs l).map (·.amplitude)).symm.nodup hnd
   have h3 := List.Pairwise.and h1 h2
@@ -323,7 +323,7 @@ theorem sortPadHits_map_negZ (l : List (PadHit F)) :
     sortPadHits s (l.map negZ) = (sortPadHits s l).map negZ := by
   have e : (l.map negZ).map (·.amplitude) = l.map (·.amplitude) := by
     rw [List.map_map]; rfl
-  rw [sortPadHits, e, applyPerm_map]
+  rw [sortPadHits, e, applyPerm_map_m]
   rfl
 
 /-! ### 5. `match_column_inputs` and `MainEvent::avalanches` of the mirrored event -/
@@ -348,7 +348,7 @@ theorem matchAtT_mirror (hs : IsDescSort (fieldOps top) s)
       sortPadHits_map_negZ, List.zipWith_map_right, List.map_zipWith]
     rfl
 
-theorem flatMap_congr' {β γ : Type} (f f' : β → List γ) (l : List β)
+theorem flatMap_congr_m {β γ : Type} (f f' : β → List γ) (l : List β)
     (h : ∀ x ∈ l, f x = f' x) : l.flatMap f = l.flatMap f' := by
   induction l with
   | nil => rfl
@@ -365,7 +365,7 @@ theorem matchColumn_mirror (hs : IsDescSort (fieldOps top) s)
     matchColumn (fieldOps top) g s indices wireInputs column.reverse
       = (matchColumn (fieldOps top) g s indices wireInputs column).map negZA := by
   simp only [matchColumn, List.map_flatMap]
-  exact flatMap_congr' _ _ _ fun t _ =>
+  exact flatMap_congr_m _ _ _ fun t _ =>
     matchAtT_mirror top g s hs hlog indices wireInputs column hrow t (hnd t)
 
 /-- **Mirror symmetry of `MainEvent::avalanches`.** If within every pad column and time bin the
@@ -380,7 +380,7 @@ theorem avalanches_mirror (hs : IsDescSort (fieldOps top) s)
     avalanches (fieldOps top) g s P (mirror ev)
       = (avalanches (fieldOps top) g s P ev).map fun a => { a with z := -a.z } := by
   simp only [avalanches, assignments_mirror, padInputs_mirror, List.map_flatMap]
-  apply flatMap_congr'
+  apply flatMap_congr_m
   intro c hc
   have hc' : c < 32 := by
     simp only [padColumns, List.mem_filter, List.mem_range, nColumns] at hc
@@ -388,5 +388,173 @@ theorem avalanches_mirror (hs : IsDescSort (fieldOps top) s)
   exact matchColumn_mirror top g s hs hlog _ _ _
     (by rw [padInputs_length]; exact hrow) (hnd c hc')
 
+/-! ### 6. When the hypotheses hold -/
+
+/-- Every hit amplitude is a positive sample of the column (rows `1 … n − 2`), in row order. -/
+theorem padHitsGo_amp_sublist (t : Nat) (rest : List (List F)) (row : Nat) (first middle : F) :
+    List.Sublist ((padHitsGo (fieldOps top) g t rest row first middle).map (·.amplitude))
+      ((middle :: rest.map (sampleAt (fieldOps top) · t)).filter fun v => decide (0 < v)) := by
+  induction rest generalizing row first middle with
+  | nil => simp [padHitsGo]
+  | cons inp rest ih =>
+    rw [padHitsGo, List.map_append, List.map_cons, List.filter_cons]
+    have ih' := ih (row + 1) middle (sampleAt (fieldOps top) inp t)
+    by_cases hp : isPeak (fieldOps top) first middle (sampleAt (fieldOps top) inp t) = true
+    · have hm : 0 < middle := by
+        simp only [isPeak, fieldOps_lt, fieldOps_zero, Bool.and_eq_true, decide_eq_true_eq] at hp
+        grind
+      simp only [hp, hm, if_true, decide_true, List.map_cons, List.map_nil, List.cons_append,
+        List.nil_append]
+      exact ih'.cons_cons _
+    · simp only [hp, if_false, Bool.false_eq_true, List.map_nil, List.nil_append]
+      split
+      · exact ih'.cons _
+      · exact ih'
+
+theorem padHitsAtT_amp_sublist (column : List (List F)) (t : Nat) :
+    List.Sublist ((padHitsAtT (fieldOps top) g column t).map (·.amplitude))
+      ((column.map (sampleAt (fieldOps top) · t)).filter fun v => decide (0 < v)) := by
+  match column with
+  | [] => simp [padHitsAtT]
+  | [_] => simp [padHitsAtT]
+  | r0 :: r1 :: rest =>
+    simp only [padHitsAtT, List.map_cons]
+    refine (padHitsGo_amp_sublist top g t rest 2 _ _).trans ?_
+    rw [List.filter_cons (x := sampleAt (fieldOps top) r0 t)]
+    split
+    · exact List.sublist_cons_self _ _
+    · exact List.Sublist.refl _
+
+/-- `avalanches_mirror` under a hypothesis on the data only: in every pad column and time bin
+the positive deconvolved samples are pairwise distinct. -/
+theorem avalanches_mirror_of_distinct_samples (hs : IsDescSort (fieldOps top) s)
+    (hlog : ∀ a b : F, 0 < a → 0 < b → g.log (a / b) = - g.log (b / a))
+    (hrow : ∀ r, r < 576 → rowZ (fieldOps top) g (575 - r) = - rowZ (fieldOps top) g r)
+    (P : Params F) (ev : Event F)
+    (hnd : ∀ c, c < 32 → ∀ t, (((padInputs P ev c).map (sampleAt (fieldOps top) · t)).filter
+      fun v => decide (0 < v)).Nodup) :
+    avalanches (fieldOps top) g s P (mirror ev)
+      = (avalanches (fieldOps top) g s P ev).map fun a => { a with z := -a.z } :=
+  avalanches_mirror top g s hs hlog hrow P ev fun c hc t =>
+    (padHitsAtT_amp_sublist top g _ t).nodup (hnd c hc t)
+
+/-- A descending sort: merge sort of the `(key, index)` pairs by key. -/
+def mergeSorter : Sorter F where
+  perm := fun keys => (keys.zipIdx.mergeSort fun a b => decide (b.1 ≤ a.1)).map (·.2)
+
+theorem mergeSorter_isDescSort : IsDescSort (fieldOps top) (mergeSorter (F := F)) := by
+  intro keys
+  constructor
+  · have h := (List.mergeSort_perm keys.zipIdx fun a b => decide (b.1 ≤ a.1)).map (·.2)
+    rw [List.zipIdx_map_snd, ← List.range_eq_range'] at h
+    exact h
+  · have hsorted := List.pairwise_mergeSort (le := fun a b : F × Nat => decide (b.1 ≤ a.1))
+      (by intro a b c; simp only [decide_eq_true_eq]; grind)
+      (by intro a b; simp only [Bool.or_eq_true, decide_eq_true_eq]; grind) keys.zipIdx
+    have e : applyPerm (mergeSorter.perm keys) keys
+        = (keys.zipIdx.mergeSort fun a b => decide (b.1 ≤ a.1)).map (·.1) := by
+      simp only [applyPerm, mergeSorter, List.filterMap_map]
+      rw [← List.filterMap_eq_map']
+      apply filterMap_congr'
+      intro x hx
+      rw [List.mem_mergeSort] at hx
+      exact List.mem_zipIdx_iff_getElem?.1 hx
+    rw [e, List.pairwise_map]
+    refine hsorted.imp ?_
+    intro a b hab
+    simp only [decide_eq_true_eq] at hab
+    simp only [fieldOps_lt, decide_eq_false_iff_not]
+    grind
+
 end
+
+/-! ### 7. The hypotheses are satisfiable (over `Rat`) -/
+
+/-- A geometry over `Rat` with the constants of the code (`PAD_PITCH_Z = L / 576`, here
+`L = 576 / 250`) and a non-constant stand-in for `ln` with `ln (1 / x) = − ln x`. -/
+def exGeo : Geo Rat where
+  log := fun x => x - 1 / x
+  ofNat := fun n => (n : Rat)
+  half := 1 / 2
+  two := 2
+  width := 1 / 250
+  halfLength := 288 * (1 / 250)
+
+theorem exGeo_hlog : ∀ a b : Rat, 0 < a → 0 < b → exGeo.log (a / b) = - exGeo.log (b / a) := by
+  intro a b ha hb
+  simp only [exGeo]
+  have ha' : a ≠ 0 := by grind
+  have hb' : b ≠ 0 := by grind
+  grind
+
+theorem exGeo_hrow : ∀ r, r < 576 → rowZ (fieldOps 0) exGeo (575 - r) = - rowZ (fieldOps 0) exGeo r :=
+  rowZ_mirror 0 exGeo (fun _ => rfl) (by simp [exGeo]; grind) rfl
+
+/-- A three-row column with one hit (for `padHits_mirror_gen`). -/
+example : (padHitsAtT (fieldOps 0) exGeo [[1],[2],[1]] 0).length = 1 := by decide
+/-- A pulse shape with pairwise distinct positive values and a peak at row 100. -/
+def exTent (r : Nat) : Nat := if r ≤ 100 then 1000 + 2 * r + 1 else 2 * (576 - r)
+
+def exParams : Params Rat := { deconvBlock := id, padDeconv := id }
+
+/-- One wire signal; every pad of every column carries one sample, `exTent row`. -/
+def exEvent : Event Rat where
+  wires := fun w => if w = 8 then some [1] else none
+  pads := fun _ r => some [(exTent r : Rat)]
+
+theorem exEvent_distinct : ∀ c, c < 32 → ∀ t,
+    (((padInputs exParams exEvent c).map (sampleAt (fieldOps 0) · t)).filter
+      fun v => decide (0 < v)).Nodup := by
+  intro c _ t
+  simp only [padInputs, exEvent, exParams, id, List.map_map, Function.comp_def, sampleAt,
+    fieldOps_zero]
+  cases t with
+  | succ t =>
+    -- no sample at `t ≥ 1`: every row reads `0.0`, none is positive
+    have e : List.filter (fun v : Rat => decide (0 < v))
+        (List.map (fun x => [(exTent x : Rat)].getD (t + 1) 0) (List.range nRows)) = [] := by
+      rw [List.filter_eq_nil_iff]
+      intro a ha
+      simp only [List.mem_map, List.getD_cons_succ, List.getD_nil] at ha
+      obtain ⟨_, _, rfl⟩ := ha
+      simp
+    rw [e]
+    exact List.nodup_nil
+  | zero =>
+    apply List.Sublist.nodup List.filter_sublist
+    simp only [List.getD_cons_zero]
+    rw [List.Nodup, List.pairwise_map]
+    refine List.pairwise_lt_range.imp_of_mem ?_
+    intro i j hi hj hij
+    rw [List.mem_range, nRows] at hi hj
+    rw [Ne, Rat.natCast_inj]
+    simp only [exTent]
+    split <;> split <;> omega
+
+/-- The example is not degenerate: column 0 has a hit at `t = 0` (rows 99, 100, 101 carry
+1199, 1201, 950). -/
+example (g : Geo Rat) : padHitsAtT (fieldOps 0) g (padInputs exParams exEvent 0) 0 ≠ [] := by
+  intro h
+  rw [padHitsAtT_eq, List.filterMap_eq_nil_iff] at h
+  have h99 := h 99 (by rw [padInputs_length, List.mem_range]; omega)
+  have hx : ∀ i, i < 576 → ((padInputs exParams exEvent 0).map (sampleAt (fieldOps 0) · 0)).getD i
+      (fieldOps (0 : Rat)).zero = (exTent i : Rat) := by
+    intro i hi
+    simp [padInputs, exEvent, exParams, sampleAt, nRows, List.getD_eq_getElem?_getD, hi]
+  rw [hx 99 (by omega), hx 100 (by omega), hx 101 (by omega)] at h99
+  have e : isPeak (fieldOps (0 : Rat)) (exTent 99 : Rat) (exTent 100 : Rat) (exTent 101 : Rat)
+      = true := by
+    simp only [isPeak, fieldOps_lt, fieldOps_zero, Bool.and_eq_true, decide_eq_true_eq,
+      Rat.natCast_lt_natCast, Rat.natCast_pos]
+    decide
+  simp [hitAt, e] at h99
+
+/-- All hypotheses of `avalanches_mirror` hold for `exGeo`, `mergeSorter`, `exEvent`. -/
+example :
+    avalanches (fieldOps 0) exGeo mergeSorter exParams (mirror exEvent)
+      = (avalanches (fieldOps 0) exGeo mergeSorter exParams exEvent).map
+          fun a => { a with z := -a.z } :=
+  avalanches_mirror_of_distinct_samples 0 exGeo mergeSorter (mergeSorter_isDescSort 0)
+    exGeo_hlog exGeo_hrow exParams exEvent exEvent_distinct
+
 end AlphaG.Matching
